@@ -293,7 +293,7 @@ func ruleInferredOrderDedup(c *Ctx, rule string) {
 	}
 	// the store of a de-duplicated slice into Schema.PropertyOrder: value does not come from append(load PropertyOrder, ...)
 	n := 0
-	core.EachInstr(ft, func(i ssa.Instruction) {
+	c.eachFam(ft, func(i ssa.Instruction) {
 		st, ok := i.(*ssa.Store)
 		if !ok {
 			return
